@@ -1457,6 +1457,14 @@ func (f *Frame) makeSlice(x *ssa.MakeSlice) {
 	a := f.use(ln, "make length")
 	f.oblig("make", x.Pos(), "make length >= 0", Conj{atomGE(a, affConst(0))}, nil)
 	r := &Root{key: "make@" + key, fresh: true, ln: a}
+	if x.Cap != nil && x.Cap != x.Len {
+		if cp, ok := f.intVal(x.Cap); ok {
+			ca := f.use(cp, "make capacity")
+			if len(f.state()) > 0 && f.state().entails(atomGE(ca, a)) && !ca.equal(a) {
+				r.ln, r.spare = ca, true
+			}
+		}
+	}
 	f.set(x, ASlice{root: r, off: Aff{}, ln: a, elem: st.Elem()})
 }
 
